@@ -184,25 +184,35 @@ impl ClockShared {
 
 	#[must_use]
 	pub fn ticking(&self) -> bool {
+		#[cfg(feature = "verif-hooks")]
+		crate::verif::sync_point("clock.ticking.load");
 		self.ticking.load(Ordering::SeqCst)
 	}
 
 	#[must_use]
 	pub fn ticks(&self) -> u64 {
+		#[cfg(feature = "verif-hooks")]
+		crate::verif::sync_point("clock.ticks.load");
 		self.ticks.load(Ordering::SeqCst)
 	}
 
 	#[must_use]
 	pub fn fractional_position(&self) -> f64 {
+		#[cfg(feature = "verif-hooks")]
+		crate::verif::sync_point("clock.fraction.load");
 		f64::from_bits(self.fractional_position.load(Ordering::SeqCst))
 	}
 
 	#[must_use]
 	pub fn is_marked_for_removal(&self) -> bool {
+		#[cfg(feature = "verif-hooks")]
+		crate::verif::sync_point("clock.removed.load");
 		self.removed.load(Ordering::SeqCst)
 	}
 
 	pub fn mark_for_removal(&self) {
+		#[cfg(feature = "verif-hooks")]
+		crate::verif::sync_point("clock.removed.store");
 		self.removed.store(true, Ordering::SeqCst);
 	}
 }
@@ -285,11 +295,15 @@ impl Clock {
 
 	fn set_ticking(&mut self, ticking: bool) {
 		self.ticking = ticking;
+		#[cfg(feature = "verif-hooks")]
+		crate::verif::sync_point("clock.ticking.store");
 		self.shared.ticking.store(ticking, Ordering::SeqCst);
 	}
 
 	fn reset(&mut self) {
 		self.state = State::NotStarted;
+		#[cfg(feature = "verif-hooks")]
+		crate::verif::sync_point("clock.ticks.store");
 		self.shared.ticks.store(0, Ordering::SeqCst);
 	}
 
@@ -301,7 +315,11 @@ impl Clock {
 				fractional_position,
 			} => (*ticks, *fractional_position),
 		};
+		#[cfg(feature = "verif-hooks")]
+		crate::verif::sync_point("clock.ticks.store");
 		self.shared.ticks.store(ticks, Ordering::SeqCst);
+		#[cfg(feature = "verif-hooks")]
+		crate::verif::sync_point("clock.fraction.store");
 		self.shared
 			.fractional_position
 			.store(fractional_position.to_bits(), Ordering::SeqCst);
